@@ -123,15 +123,15 @@ func errFor(off uint64) (string, uint32) {
 }
 
 type c10State struct {
-	x      *Ctx
-	clnt   *go9p.Clnt
-	calls  []*c10Call
-	keyOcc map[string]int
-	tagOrder bool // judge the completion order of pipelined Tag requests (C09)
-	pipeFids []uint32 // fids on which a Tag pipeline of several request kinds is running
+	x        *Ctx
+	clnt     *go9p.Clnt
+	calls    []*c10Call
+	keyOcc   map[string]int
+	tagOrder bool          // judge the completion order of pipelined Tag requests (C09)
+	pipeFids []uint32      // fids on which a Tag pipeline of several request kinds is running
 	prevErr  map[int]error // per caller: the error its previous failing call returned
 	prevWant map[int]string
-	gs     []*rt.G
+	gs       []*rt.G
 }
 
 func (st *c10State) begin(caller, idx int, kind, key string, late bool) *c10Call {
